@@ -171,56 +171,118 @@ def weave(unit, repo=None, variant=None):
     annotated = expand_includes(os.path.join(udir, f"annotated_{variant}.rs" if variant else "annotated.rs"))
     tags = tag(annotated, base)
     sm = difflib.SequenceMatcher(None, [l.strip() for l in base], [l.strip() for l in cur], autojunk=False)
-    emit = {k: [] for k in range(len(base))}      # base index -> current lines emitted in its place
-    before = {k: [] for k in range(len(base) + 1)}  # inserted current lines, emitted just before base k
+    emit = {k: [] for k in range(len(base))}      # base index -> indices of the current lines emitted in its place
+    before = {k: [] for k in range(len(base) + 1)}  # indices of inserted current lines, emitted just before base k
+    eqmap = {}                                       # base index -> current index, for unchanged lines
     changed = []
     unequal_hunks = []
     for op, i1, i2, j1, j2 in sm.get_opcodes():
         if op == "equal":
             for d in range(i2 - i1):
-                emit[i1 + d] = [cur[j1 + d]]
+                emit[i1 + d] = [j1 + d]
+                eqmap[i1 + d] = j1 + d
         elif op == "replace":
             changed.append((op, base[i1:i2], cur[j1:j2]))
             if i2 - i1 == j2 - j1:
                 for d in range(i2 - i1):
-                    emit[i1 + d] = [cur[j1 + d]]
+                    emit[i1 + d] = [j1 + d]
             else:
-                emit[i1] = cur[j1:j2]
+                emit[i1] = list(range(j1, j2))
                 unequal_hunks.append((i1, i2))
         elif op == "delete":
             changed.append((op, base[i1:i2], []))
+            if i2 - i1 > 1:
+                unequal_hunks.append((i1, i2))
         elif op == "insert":
             changed.append((op, [], cur[j1:j2]))
-            before[i1].extend(cur[j1:j2])
-    # specification lines strictly inside an unequal replace hunk make the weave "fuzzy"
+            before[i1].extend(range(j1, j2))
+    # specification lines strictly inside an unequal hunk (lines replaced by a different number of lines, or deleted): their
+    # place is re-derived from the neighbouring code lines, searched in the current text of the same function: the block goes
+    # between the unique adjacent pair (line it followed, line it preceded), else after the unique current line equal to the
+    # line it followed, else before the unique current line equal to the line it preceded.  When a block cannot be placed
+    # that way the weave is "fuzzy" (the check then answers undecided for failures in that function).
     pos_of = {}
     for idx, t in enumerate(tags):
         if t is not None:
             pos_of[t] = idx
     fuzzy_ranges = []
+    reanchored = []
+    moved = set()
+    attach = {}   # current line index -> [annotated indices] emitted right after that line
+    cur_s = [l.strip() for l in cur]
     for (i1, i2) in unequal_hunks:
         a, b = pos_of[i1], pos_of[i2 - 1]
-        if any(tags[x] is None and annotated[x].strip() for x in range(a, b)):
+        blocks = []   # (prev base index, next base index, [annotated indices])
+        x = a + 1
+        while x < b:
+            if tags[x] is None and annotated[x].strip():
+                y = x
+                while y < b and tags[y] is None:
+                    y += 1
+                pv = max(t for t in tags[a:x] if t is not None)
+                blocks.append((pv, tags[y], [z for z in range(x, y)]))
+                x = y
+            else:
+                x += 1
+        if not blocks:
+            continue
+        fs, fe = fn_span(base, i1)
+        cs = eqmap.get(fs)
+        if fs is None or cs is None:
             fuzzy_ranges.append((i1, i2))
+            continue
+        _cs, ce = fn_span(cur, cs)
+        placed = []
+        ok = True
+        for (pv, nx, idxs) in blocks:
+            ptxt, ntxt = base[pv].strip(), base[nx].strip()
+            pair = [k for k in range(cs, ce) if cur_s[k] == ptxt and cur_s[k + 1] == ntxt]
+            pre = [k for k in range(cs, ce + 1) if cur_s[k] == ptxt]
+            nxt = [k for k in range(cs + 1, ce + 1) if cur_s[k] == ntxt]
+            if len(pair) == 1:
+                at = pair[0]
+            elif len(pre) == 1:
+                at = pre[0]
+            elif len(nxt) == 1:
+                at = nxt[0] - 1
+            else:
+                ok = False
+                break
+            placed.append((at, idxs))
+        if not ok:
+            fuzzy_ranges.append((i1, i2))
+            continue
+        for at, idxs in placed:
+            attach.setdefault(at, []).extend(idxs)
+            moved.update(idxs)
+        reanchored.append((i1, i2))
     out = []
     origin = []  # per output line: ('code', base index or None) / ('spec', annotated index)
+
+    def put_code(c, t):
+        out.append(cur[c])
+        origin.append(("code", t))
+        for z in attach.get(c, []):
+            out.append(annotated[z])
+            origin.append(("spec", z))
+
     for idx, line in enumerate(annotated):
         t = tags[idx]
         if t is None:
+            if idx in moved:
+                continue
             out.append(line)
             origin.append(("spec", idx))
         else:
-            for l in before[t]:
-                out.append(l)
-                origin.append(("code", None))
-            for l in emit[t]:
-                out.append(l)
-                origin.append(("code", t))
+            for c in before[t]:
+                put_code(c, None)
+            for c in emit[t]:
+                put_code(c, t)
     # insertions after the last base line go after the last code line
     if before[len(base)]:
         last = max(i for i, o in enumerate(origin) if o[0] == "code")
-        for n, l in enumerate(before[len(base)]):
-            out.insert(last + 1 + n, l)
+        for n, c in enumerate(before[len(base)]):
+            out.insert(last + 1 + n, cur[c])
             origin.insert(last + 1 + n, ("code", None))
     text = "\n".join(out) + "\n"
     fuzzy_fns = set()
@@ -231,6 +293,7 @@ def weave(unit, repo=None, variant=None):
         "rules": rules,
         "changed": changed,
         "fuzzy_fns": sorted(f for f in fuzzy_fns if f),
+        "reanchored_fns": sorted(set(f for f in (enclosing_fn(base, i1) for (i1, _i2) in reanchored) if f)),
         "code_lines": sum(1 for o in origin if o[0] == "code"),
         "spec_lines": sum(1 for i, o in enumerate(origin) if o[0] == "spec" and out[i].strip()),
         "base_same": not changed,
@@ -324,6 +387,23 @@ MOD_RE = re.compile(r"^\s*(?:pub\s+)?mod\s+(\w+)\s*\{")
 
 def indent_of(line):
     return len(line) - len(line.lstrip())
+
+
+def fn_span(lines, i):
+    """(first, last) line index of the function containing line i in rustfmt-formatted text; (None, None) when not in one"""
+    j = min(i, len(lines) - 1)
+    while j >= 0:
+        s = lines[j].strip()
+        if FN_RE.search(lines[j]) and not s.startswith("//") and re.match(r"^(pub(\([a-z]+\))? )?(const )?(open |closed |uninterp |broadcast |unsafe )*(spec |proof |axiom |exec )?(unsafe )?fn\b", s):
+            ind = indent_of(lines[j])
+            k = j + 1
+            while k < len(lines):
+                if lines[k].strip() == "}" and indent_of(lines[k]) == ind:
+                    return (j, k) if k >= i else (None, None)
+                k += 1
+            return (None, None)
+        j -= 1
+    return (None, None)
 
 
 def enclosing_fn(lines, i):
